@@ -28,19 +28,19 @@ ASSUMPTIONS = ['expected path = type name + member names, list elements unnamed;
                'well-typed values must pass the type check (asserted on every base value)']
 REPORT = ['modules', 'evaluations', 'well_typed_accepted', 'kind:wrong_type', 'kind:unknown_choice', 'kind:unknown_enum',
           'kind:missing_member', 'kind:constraint', 'in_addition', 'in_list_element', 'carved_out']
-FLOORS = {'quick': {'evaluations': 40000, 'kind:wrong_type': 10000, 'kind:missing_member': 2000, 'kind:unknown_choice': 1000,
-                    'kind:unknown_enum': 500}, 'thorough': {'evaluations': 400000}}
+FLOORS = {'quick': {'evaluations': 40000, 'kind:wrong_type': 10000, 'kind:missing_member': 2000, 'kind:unknown_choice': 1000, 'kind:unknown_enum': 500},
+          'thorough': {'evaluations': 160000, 'kind:wrong_type': 40000, 'kind:missing_member': 8000, 'kind:unknown_choice': 4000, 'kind:unknown_enum': 2000}}
 TIMEOUT = {'quick': 1800, 'thorough': 14000}
 
 
 def shards(tier):
-    return 32 if tier == 'quick' else 128
+    return 32 if tier == 'quick' else 64
 
 
 def params(tier):
     if tier == 'quick':
         return {'modules': 5, 'values': 5, 'positions': 5}
-    return {'modules': 20, 'values': 10, 'positions': 8}
+    return {'modules': 15, 'values': 8, 'positions': 8}
 
 
 def profile(tier):
